@@ -8,7 +8,7 @@ def mc_subpkg(ctx, configs):
     for i, c in enumerate(configs):
         cases = os.path.join(ctx.scratch, "subpkg_scripts_%d.ndjson" % i)
         consts = {"NA": c["NA"], "NB": c.get("NB", 0), "MaxSteps": c["MaxSteps"], "MaxDup": c.get("MaxDup", 1),
-                  "MaxBad": c.get("MaxBad", 1), "Ticks": c.get("Ticks", "{}"), "Record": "TRUE", "Ver": c.get("Ver", 0)}
+                  "MaxBad": c.get("MaxBad", 1), "MaxRestart": c.get("MaxRestart", 1), "Ticks": c.get("Ticks", "{}"), "Record": "TRUE", "Ver": c.get("Ver", 0)}
         ctx.tlc("MC_SubPkg", constants=consts, env={"VERIF_OUT": cases}, workers=12, name="MC_SubPkg_%s" % json.dumps(c, sort_keys=True))
         res = os.path.join(ctx.scratch, "subpkg_res_%d.ndjson" % i)
         ctx.vh_ok(["extract-replay", cases, res], timeout=1500)
@@ -55,7 +55,7 @@ def replay_any(ctx, r):
         out = os.path.join(ctx.scratch, "one_res.ndjson")
         ctx.vh_ok(["extract-replay", f, out]); run_results(ctx, out, "replay")
     elif "frames" in (r.get("case") or {}):
-        f = os.path.join(ctx.scratch, "one.ndjson"); open(f, "w").write(json.dumps({"frames": r["case"]["frames"]}) + "\n")
+        f = os.path.join(ctx.scratch, "one.ndjson"); open(f, "w").write(json.dumps({k: v for k, v in r["case"].items() if k in ("frames", "expect", "counts") and v is not None}) + "\n")
         out = os.path.join(ctx.scratch, "one_res.ndjson")
         ctx.vh_ok(["stream-replay", f, out]); run_results(ctx, out, "replay")
     elif r.get("kind") == "extract-session":
